@@ -441,6 +441,23 @@ def extra_validation(rec, rng, lo):
 CHUNK = 500
 
 
+def guard_periodic(lo):
+    """sin/cos/tan of an astronomically large argument (e.g. sin(exp(cube(...)))) make mpmath raise its working precision to the
+    size of the argument; such a point carries no information at 30 digits, so it is treated as undefined (this process only)"""
+    import mpmath as mp
+    bound = mp.mpf(10) ** 30
+
+    def g(fn):
+        def f(a):
+            if abs(a) > bound:
+                raise lo.Undefined("periodic function of a huge argument")
+            return fn(a)
+        return f
+    for mode in ("esr", "plain"):
+        for name, fn in (("sin", mp.sin), ("cos", mp.cos), ("tan", mp.tan)):
+            lo._NS[mode][name] = g(fn)
+
+
 def search_one(args):
     """runs in a worker process: the C03 statement on rows [lo, hi) of one library (+, for the first chunk, the checks on
     the unique list and the validation of the recorded steps)"""
@@ -448,6 +465,7 @@ def search_one(args):
     sys.path.insert(0, os.path.join(esrv.VERIF, "harness", "lib"))
     import liboracle as lo
     import random
+    guard_periodic(lo)
     lib = lo.load_library(rec["dir"], rec["n"])
     nall = len(lib["all"])
     rows_ok = len(lib["matches"]) == nall and len(lib["subs"]) == nall and len(lib["trees"]) == nall and len(lib["aifeyn"]) == nall
